@@ -235,29 +235,29 @@ where
     D: DiffHook,
     New::Output: PartialEq<Old::Output>,
 /*@*/     requires
-/*@*/         diff_pre(*vstd::prelude::old(d), old, old_range, new, new_range),
+/*@*/         diff_pre(*vstd::prelude::old(d), old, old_range, new, new_range, alg_lvl(deadline)),
 /*@*/         v_ok(vstd::prelude::old(vf), old_range, new_range), v_ok(vstd::prelude::old(vb), old_range, new_range),
 /*@*/     ensures
 /*@*/         err_post(*vstd::prelude::old(d), *final(d), res),
-/*@*/         seg_post(*vstd::prelude::old(d), *final(d), old, old_range, new, new_range, Seq::<Ev>::empty(), res.is_ok()),
+/*@*/         seg_post(*vstd::prelude::old(d), *final(d), old, old_range, new, new_range, alg_lvl(deadline), Seq::<Ev>::empty(), res.is_ok()),
 /*@*/         final(vf).wf(), final(vf).offset == vstd::prelude::old(vf).offset, final(vb).wf(), final(vb).offset == vstd::prelude::old(vb).offset,
 /*@*/     decreases (old_range.end - old_range.start) + (new_range.end - new_range.start),
 {
     /*@*/ broadcast use {axiom_pure_index, axiom_pure_eq};
-    /*@*/ let ghost rel = rel_of(old, new);
+    /*@*/ let ghost rel = rel_of(old, new); let ghost lvl = alg_lvl(deadline);
     /*@*/ let ghost o0 = old_range.start as int; let ghost n0 = new_range.start as int;
     /*@*/ let ghost oe0 = old_range.end as int; let ghost ne0 = new_range.end as int;
     /*@*/ let ghost d0 = *d; let ghost t0 = d.trace(); let ghost rs0 = d.rely_st(); let ghost r1 = d.rely_rel();
     /*@*/ let ghost mut s: Seq<Ev> = Seq::empty();
     /*@*/ let ghost mut oc: int = o0; let ghost mut nc: int = n0;
-    /*@*/ proof { lemma_seg_empty(rel, o0, n0); lemma_run_empty(r1, rs0); assert(t0 + s =~= t0); assert(alg_inv(*d, d0, t0, s, rel, rs0, o0, n0, oc, nc)); }
+    /*@*/ proof { lemma_seg_empty(rel, lvl, o0, n0); lemma_run_empty(r1, rs0); assert(t0 + s =~= t0); assert(alg_inv(*d, d0, t0, s, rel, lvl, rs0, o0, n0, oc, nc)); }
     // Check for common prefix
     let common_prefix_len = common_prefix_len(old, old_range.clone(), new, new_range.clone());
     if common_prefix_len > 0 {
-        /*@*/ proof { let e = Ev::Equal(old_range.start, new_range.start, common_prefix_len); if d0.relies() { pre_call(rel, r1, s, e, o0, n0, oc, nc, rs0); } }
+        /*@*/ proof { let e = Ev::Equal(old_range.start, new_range.start, common_prefix_len); if d0.relies() { pre_call(rel, r1, lvl, s, e, o0, n0, oc, nc, rs0); } }
         d.equal(old_range.start, new_range.start, common_prefix_len)?;
-        /*@*/ proof { let e = Ev::Equal(old_range.start, new_range.start, common_prefix_len); post_call(rel, r1, s, e, o0, n0, oc, nc, rs0); assert((t0 + s).push(e) =~= t0 + s.push(e)); s = s.push(e); oc = oc + common_prefix_len; nc = nc + common_prefix_len;
-        /*@*/     assert(alg_inv(*d, d0, t0, s, rel, rs0, o0, n0, oc, nc)); }
+        /*@*/ proof { let e = Ev::Equal(old_range.start, new_range.start, common_prefix_len); post_call(rel, r1, lvl, s, e, o0, n0, oc, nc, rs0); assert((t0 + s).push(e) =~= t0 + s.push(e)); s = s.push(e); oc = oc + common_prefix_len; nc = nc + common_prefix_len;
+        /*@*/     assert(alg_inv(*d, d0, t0, s, rel, lvl, rs0, o0, n0, oc, nc)); }
     }
     old_range.start += common_prefix_len;
     new_range.start += common_prefix_len;
@@ -274,15 +274,15 @@ where
     if is_empty_range(&old_range) && is_empty_range(&new_range) {
         // Do nothing
     } else if is_empty_range(&new_range) {
-        /*@*/ proof { let e = Ev::Delete(old_range.start, (old_range.end - old_range.start) as usize, new_range.start); if d0.relies() { pre_call(rel, r1, s, e, o0, n0, oc, nc, rs0); } }
+        /*@*/ proof { let e = Ev::Delete(old_range.start, (old_range.end - old_range.start) as usize, new_range.start); if d0.relies() { pre_call(rel, r1, lvl, s, e, o0, n0, oc, nc, rs0); } }
         d.delete(old_range.start, old_range.len(), new_range.start)?;
-        /*@*/ proof { let e = Ev::Delete(old_range.start, (old_range.end - old_range.start) as usize, new_range.start); post_call(rel, r1, s, e, o0, n0, oc, nc, rs0); assert((t0 + s).push(e) =~= t0 + s.push(e)); s = s.push(e); oc = oc + (old_range.end - old_range.start);
-        /*@*/     assert(alg_inv(*d, d0, t0, s, rel, rs0, o0, n0, oc, nc)); }
+        /*@*/ proof { let e = Ev::Delete(old_range.start, (old_range.end - old_range.start) as usize, new_range.start); post_call(rel, r1, lvl, s, e, o0, n0, oc, nc, rs0); assert((t0 + s).push(e) =~= t0 + s.push(e)); s = s.push(e); oc = oc + (old_range.end - old_range.start);
+        /*@*/     assert(alg_inv(*d, d0, t0, s, rel, lvl, rs0, o0, n0, oc, nc)); }
     } else if is_empty_range(&old_range) {
-        /*@*/ proof { let e = Ev::Insert(old_range.start, new_range.start, (new_range.end - new_range.start) as usize); if d0.relies() { pre_call(rel, r1, s, e, o0, n0, oc, nc, rs0); } }
+        /*@*/ proof { let e = Ev::Insert(old_range.start, new_range.start, (new_range.end - new_range.start) as usize); if d0.relies() { pre_call(rel, r1, lvl, s, e, o0, n0, oc, nc, rs0); } }
         d.insert(old_range.start, new_range.start, new_range.len())?;
-        /*@*/ proof { let e = Ev::Insert(old_range.start, new_range.start, (new_range.end - new_range.start) as usize); post_call(rel, r1, s, e, o0, n0, oc, nc, rs0); assert((t0 + s).push(e) =~= t0 + s.push(e)); s = s.push(e); nc = nc + (new_range.end - new_range.start);
-        /*@*/     assert(alg_inv(*d, d0, t0, s, rel, rs0, o0, n0, oc, nc)); }
+        /*@*/ proof { let e = Ev::Insert(old_range.start, new_range.start, (new_range.end - new_range.start) as usize); post_call(rel, r1, lvl, s, e, o0, n0, oc, nc, rs0); assert((t0 + s).push(e) =~= t0 + s.push(e)); s = s.push(e); nc = nc + (new_range.end - new_range.start);
+        /*@*/     assert(alg_inv(*d, d0, t0, s, rel, lvl, rs0, o0, n0, oc, nc)); }
     } else if let Some((x_start, y_start)) = find_middle_snake(
         old,
         old_range.clone(),
@@ -295,60 +295,60 @@ where
         let (old_a, old_b) = split_at(old_range, x_start);
         let (new_a, new_b) = split_at(new_range, y_start);
         /*@*/ let ghost tm = d.trace(); let ghost rm = d.rely_st(); let ghost dm = *d;
-        /*@*/ proof { if d0.relies() { lemma_seg_any(rel, r1, s, o0, n0, oc, nc, rs0); lemma_mono(r1, rs0, s); } }
+        /*@*/ proof { if d0.relies() { lemma_seg_any(rel, r1, lvl, s, o0, n0, oc, nc, rs0); lemma_mono(r1, rs0, s); } }
         conquer(d, old, old_a, new, new_a, vf, vb, deadline)?;
         /*@*/ proof {
-        /*@*/     let sa = choose|q: Seq<Ev>| #[trigger] seg(old, new, q, old_a.start as int, new_a.start as int, old_a.end as int, new_a.end as int)
+        /*@*/     let sa = choose|q: Seq<Ev>| #[trigger] seg(old, new, lvl, q, old_a.start as int, new_a.start as int, old_a.end as int, new_a.end as int)
         /*@*/         && d.trace() == tm + q + Seq::<Ev>::empty() && (dm.relies() ==> d.rely_st() == run_rel(dm.rely_rel(), rm, q));
-        /*@*/     lemma_seg_concat(rel, s, sa, o0, n0, oc, nc, old_a.end as int, new_a.end as int);
+        /*@*/     lemma_seg_concat(rel, lvl, s, sa, o0, n0, oc, nc, old_a.end as int, new_a.end as int);
         /*@*/     lemma_run_concat(r1, rs0, s, sa);
         /*@*/     assert((t0 + s) + sa + Seq::<Ev>::empty() =~= t0 + (s + sa));
         /*@*/     s = s + sa; oc = old_a.end as int; nc = new_a.end as int;
-        /*@*/     assert(alg_inv(*d, d0, t0, s, rel, rs0, o0, n0, oc, nc));
+        /*@*/     assert(alg_inv(*d, d0, t0, s, rel, lvl, rs0, o0, n0, oc, nc));
         /*@*/ }
         /*@*/ let ghost tm = d.trace(); let ghost rm = d.rely_st(); let ghost dm = *d;
-        /*@*/ proof { if d0.relies() { lemma_seg_any(rel, r1, s, o0, n0, oc, nc, rs0); lemma_mono(r1, rs0, s); } }
+        /*@*/ proof { if d0.relies() { lemma_seg_any(rel, r1, lvl, s, o0, n0, oc, nc, rs0); lemma_mono(r1, rs0, s); } }
         conquer(d, old, old_b, new, new_b, vf, vb, deadline)?;
         /*@*/ proof {
-        /*@*/     let sa = choose|q: Seq<Ev>| #[trigger] seg(old, new, q, old_b.start as int, new_b.start as int, old_b.end as int, new_b.end as int)
+        /*@*/     let sa = choose|q: Seq<Ev>| #[trigger] seg(old, new, lvl, q, old_b.start as int, new_b.start as int, old_b.end as int, new_b.end as int)
         /*@*/         && d.trace() == tm + q + Seq::<Ev>::empty() && (dm.relies() ==> d.rely_st() == run_rel(dm.rely_rel(), rm, q));
-        /*@*/     lemma_seg_concat(rel, s, sa, o0, n0, oc, nc, old_b.end as int, new_b.end as int);
+        /*@*/     lemma_seg_concat(rel, lvl, s, sa, o0, n0, oc, nc, old_b.end as int, new_b.end as int);
         /*@*/     lemma_run_concat(r1, rs0, s, sa);
         /*@*/     assert((t0 + s) + sa + Seq::<Ev>::empty() =~= t0 + (s + sa));
         /*@*/     s = s + sa; oc = old_b.end as int; nc = new_b.end as int;
-        /*@*/     assert(alg_inv(*d, d0, t0, s, rel, rs0, o0, n0, oc, nc));
+        /*@*/     assert(alg_inv(*d, d0, t0, s, rel, lvl, rs0, o0, n0, oc, nc));
         /*@*/ }
     } else {
-        /*@*/ proof { let e = Ev::Delete(old_range.start, (old_range.end - old_range.start) as usize, new_range.start); if d0.relies() { pre_call(rel, r1, s, e, o0, n0, oc, nc, rs0); } }
+        /*@*/ proof { let e = Ev::Delete(old_range.start, (old_range.end - old_range.start) as usize, new_range.start); if d0.relies() { pre_call(rel, r1, lvl, s, e, o0, n0, oc, nc, rs0); } }
         d.delete(
             old_range.start,
             old_range.end - old_range.start,
             new_range.start,
         )?;
-        /*@*/ proof { let e = Ev::Delete(old_range.start, (old_range.end - old_range.start) as usize, new_range.start); post_call(rel, r1, s, e, o0, n0, oc, nc, rs0); assert((t0 + s).push(e) =~= t0 + s.push(e)); s = s.push(e); oc = oc + (old_range.end - old_range.start);
-        /*@*/     assert(alg_inv(*d, d0, t0, s, rel, rs0, o0, n0, oc, nc)); }
-        /*@*/ proof { let e = Ev::Insert(old_range.start, new_range.start, (new_range.end - new_range.start) as usize); if d0.relies() { pre_call(rel, r1, s, e, o0, n0, oc, nc, rs0); } }
+        /*@*/ proof { let e = Ev::Delete(old_range.start, (old_range.end - old_range.start) as usize, new_range.start); post_call(rel, r1, lvl, s, e, o0, n0, oc, nc, rs0); assert((t0 + s).push(e) =~= t0 + s.push(e)); s = s.push(e); oc = oc + (old_range.end - old_range.start);
+        /*@*/     assert(alg_inv(*d, d0, t0, s, rel, lvl, rs0, o0, n0, oc, nc)); }
+        /*@*/ proof { let e = Ev::Insert(old_range.start, new_range.start, (new_range.end - new_range.start) as usize); if d0.relies() { pre_call(rel, r1, lvl, s, e, o0, n0, oc, nc, rs0); } }
         d.insert(
             old_range.start,
             new_range.start,
             new_range.end - new_range.start,
         )?;
-        /*@*/ proof { let e = Ev::Insert(old_range.start, new_range.start, (new_range.end - new_range.start) as usize); post_call(rel, r1, s, e, o0, n0, oc, nc, rs0); assert((t0 + s).push(e) =~= t0 + s.push(e)); s = s.push(e); nc = nc + (new_range.end - new_range.start);
-        /*@*/     assert(alg_inv(*d, d0, t0, s, rel, rs0, o0, n0, oc, nc)); }
+        /*@*/ proof { let e = Ev::Insert(old_range.start, new_range.start, (new_range.end - new_range.start) as usize); post_call(rel, r1, lvl, s, e, o0, n0, oc, nc, rs0); assert((t0 + s).push(e) =~= t0 + s.push(e)); s = s.push(e); nc = nc + (new_range.end - new_range.start);
+        /*@*/     assert(alg_inv(*d, d0, t0, s, rel, lvl, rs0, o0, n0, oc, nc)); }
     }
 
     if common_suffix_len > 0 {
-        /*@*/ proof { let e = Ev::Equal(common_suffix.0, common_suffix.1, common_suffix_len); if d0.relies() { pre_call(rel, r1, s, e, o0, n0, oc, nc, rs0); } }
+        /*@*/ proof { let e = Ev::Equal(common_suffix.0, common_suffix.1, common_suffix_len); if d0.relies() { pre_call(rel, r1, lvl, s, e, o0, n0, oc, nc, rs0); } }
         d.equal(common_suffix.0, common_suffix.1, common_suffix_len)?;
-        /*@*/ proof { let e = Ev::Equal(common_suffix.0, common_suffix.1, common_suffix_len); post_call(rel, r1, s, e, o0, n0, oc, nc, rs0); assert((t0 + s).push(e) =~= t0 + s.push(e)); s = s.push(e); oc = oc + common_suffix_len; nc = nc + common_suffix_len;
-        /*@*/     assert(alg_inv(*d, d0, t0, s, rel, rs0, o0, n0, oc, nc)); }
+        /*@*/ proof { let e = Ev::Equal(common_suffix.0, common_suffix.1, common_suffix_len); post_call(rel, r1, lvl, s, e, o0, n0, oc, nc, rs0); assert((t0 + s).push(e) =~= t0 + s.push(e)); s = s.push(e); oc = oc + common_suffix_len; nc = nc + common_suffix_len;
+        /*@*/     assert(alg_inv(*d, d0, t0, s, rel, lvl, rs0, o0, n0, oc, nc)); }
     }
 
     /*@*/ proof {
-    /*@*/     assert(alg_inv(*d, d0, t0, s, rel, rs0, o0, n0, oc, nc));
+    /*@*/     assert(alg_inv(*d, d0, t0, s, rel, lvl, rs0, o0, n0, oc, nc));
     /*@*/     assert(oc == oe0 && nc == ne0);
     /*@*/     assert(t0 + s + Seq::<Ev>::empty() =~= t0 + s);
-    /*@*/     assert(seg(old, new, s, o0, n0, oe0, ne0));
+    /*@*/     assert(seg(old, new, lvl, s, o0, n0, oe0, ne0));
     /*@*/ }
     Ok(())
 }
@@ -368,10 +368,10 @@ where
     New: Index<usize> + ?Sized,
     D: DiffHook,
     New::Output: PartialEq<Old::Output>,
-/*@*/     requires diff_pre(*vstd::prelude::old(d), old, old_range, new, new_range),
+/*@*/     requires diff_pre(*vstd::prelude::old(d), old, old_range, new, new_range, alg_lvl(deadline)),
 /*@*/     ensures
 /*@*/         err_post(*vstd::prelude::old(d), *final(d), res),
-/*@*/         seg_post(*vstd::prelude::old(d), *final(d), old, old_range, new, new_range, fin::<D>(), res.is_ok()),
+/*@*/         seg_post(*vstd::prelude::old(d), *final(d), old, old_range, new, new_range, alg_lvl(deadline), fin::<D>(), res.is_ok()),
 {
     let max_d = max_d(old_range.len(), new_range.len());
     let mut vb = V::new(max_d);
@@ -380,10 +380,11 @@ where
         d, old, old_range, new, new_range, &mut vf, &mut vb, deadline,
     )?;
     /*@*/ proof {
+    /*@*/     let lvl = alg_lvl(deadline);
     /*@*/     let d0 = *vstd::prelude::old(d);
-    /*@*/     let sa = choose|q: Seq<Ev>| #[trigger] seg(old, new, q, old_range.start as int, new_range.start as int, old_range.end as int, new_range.end as int)
+    /*@*/     let sa = choose|q: Seq<Ev>| #[trigger] seg(old, new, lvl, q, old_range.start as int, new_range.start as int, old_range.end as int, new_range.end as int)
     /*@*/         && d.trace() == d0.trace() + q + Seq::<Ev>::empty() && (d0.relies() ==> d.rely_st() == run_rel(d0.rely_rel(), d0.rely_st(), q));
-    /*@*/     if d0.relies() { lemma_seg_any(rel_of(old, new), d0.rely_rel(), sa, old_range.start as int, new_range.start as int, old_range.end as int, new_range.end as int, d0.rely_st()); }
+    /*@*/     if d0.relies() { lemma_seg_any(rel_of(old, new), d0.rely_rel(), lvl, sa, old_range.start as int, new_range.start as int, old_range.end as int, new_range.end as int, d0.rely_st()); }
     /*@*/     assert(d0.trace() + sa + Seq::<Ev>::empty() + fin::<D>() =~= d0.trace() + sa + fin::<D>());
     /*@*/     assert(sa + Seq::<Ev>::empty() =~= sa);
     /*@*/     lemma_run_fin::<D>(d0.rely_rel(), d0.rely_st(), sa);
@@ -405,10 +406,10 @@ where
     New: Index<usize> + ?Sized,
     D: DiffHook,
     New::Output: PartialEq<Old::Output>,
-/*@*/     requires diff_pre(*vstd::prelude::old(d), old, old_range, new, new_range),
+/*@*/     requires diff_pre(*vstd::prelude::old(d), old, old_range, new, new_range, alg_lvl(None)),
 /*@*/     ensures
 /*@*/         err_post(*vstd::prelude::old(d), *final(d), res),
-/*@*/         seg_post(*vstd::prelude::old(d), *final(d), old, old_range, new, new_range, fin::<D>(), res.is_ok()),
+/*@*/         seg_post(*vstd::prelude::old(d), *final(d), old, old_range, new, new_range, alg_lvl(None), fin::<D>(), res.is_ok()),
 {
     diff_deadline(d, old, old_range, new, new_range, None)
 }
